@@ -337,6 +337,8 @@ impl AsyncRead for SimStream {
             if s.eof {
                 s.eof_reads += 1;
                 if s.eof_reads > 10_000 {
+                    // release the lock first: a poisoned mutex would turn the unwinding into an abort
+                    drop(s);
                     panic!("the connection handler keeps reading after the end of stream (10000 reads at EOF)");
                 }
                 return Poll::Ready(Ok(()));
